@@ -25,25 +25,31 @@ def extract(ot):
 
 
 def gen_int(form, t, domain, tier):
+    """domain: accept (ascending, step > 0) | accept_desc (step < 0, signed stepped forms only) | reject (no term)
+
+    The oracle is division-free: the mathematical length n is a fresh symbolic value in 1..CAP constrained by
+    `start + (n-1)*step` still inside the bound and `start + n*step` already outside (in a wider integer type), so the
+    only division in the query is the implementation's own."""
     crate, relp, fxn, inclusive, stepped = FILES[form]
     w = WIDE[t]
     var = TY_VARIANT[t]
-    signed = t.startswith("i")
     b = ["let a: %s = kani::any(); let e: %s = kani::any();" % (t, t)]
     if stepped:
         b.append("let s: %s = kani::any();" % t)
     else:
         b.append("let s: %s = 1;" % t)
     b.append("let (aw, ew, sw) = (a as %s, e as %s, s as %s);" % (w, w, w))
-    # mathematical length n = #{ i >= 0 : a + i*s (< | <=) e } for s > 0; mirrored for s < 0; 0 otherwise
-    cmp_up = "<=" if inclusive else "<"
-    cmp_dn = ">=" if inclusive else ">"
-    b.append("let n: %s = if sw > 0 && aw %s ew { (ew - aw %s) / sw + 1 } else if sw < 0 && aw %s ew { (aw - ew %s) / (-sw) + 1 } else { 0 };"
-             % (w, cmp_up, "" if inclusive else "- 1", cmp_dn, "" if inclusive else "- 1"))
     args = "Value::%s(ac.clone()), %sValue::%s(ec.clone())" % (var, ("Value::%s(sc.clone()), " % var) if stepped else "", var)
     b.append("let ac = Ref::new(a); let ec = Ref::new(e); let sc = Ref::new(s);")
-    if domain == "accept":
-        b.append("kani::assume(n >= 1 && n <= %d);" % CAP)
+    if domain in ("accept", "accept_desc"):
+        up = domain == "accept"
+        b.append("let n: usize = kani::any(); kani::assume(n >= 1 && n <= %d);" % CAP)
+        b.append("let km1: %s = %s;" % (w, " else ".join(["if n == %d { %s }" % (k, "0" if k == 1 else "%d * sw" % (k - 1)) for k in range(1, CAP)] + ["{ %d * sw }" % (CAP - 1)])))
+        b.append("let last = aw + km1; let next = last + sw;")
+        if up:
+            b.append("kani::assume(sw > 0 && last %s ew && next %s ew);" % ("<=" if inclusive else "<", ">" if inclusive else ">="))
+        else:
+            b.append("kani::assume(sw < 0 && last %s ew && next %s ew);" % (">=" if inclusive else ">", "<" if inclusive else "<="))
         b.append("kani::cover!(n == %d, \"VP:reached-call\");" % CAP)
         b.append("match %s(%s) {" % (fxn, args))
         b.append("  Err(err) => { forget(err); assert!(false, \"VP:rejected-buildable-range\"); }")
@@ -51,19 +57,20 @@ def gen_int(form, t, domain, tier):
         b.append("    f.solve();")
         b.append("    let v = f.out();")
         b.append("    " + extract(t))
-        b.append("    assert!(rows == 1 && cols as %s == n, \"VP:wrong-length\");" % w)
+        b.append("    assert!(rows == 1 && cols == n, \"VP:wrong-length\");")
         b.append("    let mut ok = true;")
         for i_ in range(CAP):
-            b.append("    if %d < cols && (%d as %s) < n { if (rd(%d) as %s) != aw + (%d as %s) * sw { ok = false; } }" % (i_, i_, w, i_, w, i_, w))
+            b.append("    if %d < cols && %d < n { if (rd(%d) as %s) != aw + (%d as %s) * sw { ok = false; } }" % (i_, i_, i_, w, i_, w))
         b.append("    assert!(ok, \"VP:wrong-element\");")
         b.append("    kani::cover!(true, \"VP:reached\");")
         b.append("    forget(v); forget(f);")
         b.append("  }")
         b.append("}")
-        desc = "%s on %s with mathematical length 1..%d: accepted, 1xn row vector, element i = start + i*step" % (fxn, t, CAP)
+        desc = "%s on %s, %s progression with 1..%d terms: accepted, 1xn row vector, element i = start + i*step" % (fxn, t, "ascending" if up else "descending (negative step)", CAP)
+        bounds = "start, end%s: all values of %s whose progression has 1..%d terms, step %s 0" % (", step" if stepped else "", t, CAP, ">" if up else "<")
     else:
         # nothing to build: zero step, wrong direction, empty.  Must be an error / panic, or an empty vector.
-        b.append("kani::assume(n == 0);")
+        b.append("kani::assume(sw == 0 || (sw > 0 && aw %s ew) || (sw < 0 && aw %s ew));" % (">" if inclusive else ">=", "<" if inclusive else "<="))
         b.append("kani::cover!(true, \"VP:reached-call\");")
         b.append("match %s(%s) {" % (fxn, args))
         b.append("  Err(err) => { kani::cover!(true, \"VP:rejected-err\"); forget(err); }")
@@ -75,12 +82,12 @@ def gen_int(form, t, domain, tier):
         b.append("  }")
         b.append("}")
         desc = "%s on %s when the progression has no term (zero step, wrong direction, start past end): error, panic or empty vector" % (fxn, t)
+        bounds = "start, end%s: all values of %s for which the progression has no term" % (", step" if stepped else "", t)
     b.append("forget(ac); forget(ec); forget(sc);")
-    h = H("c15_%s_%s_%s" % (form, t, domain), "    " + "\n    ".join(b), (crate, relp), domain=domain,
+    h = H("c15_%s_%s_%s" % (form, t, domain), "    " + "\n    ".join(b), (crate, relp), domain="reject" if domain == "reject" else "accept",
           key="%s/%s/%s" % (form, t, domain), desc=desc,
           functions=["%s (machines/range/%s: size computation, output allocation)" % (fxn, relp), "Range*Scalar::solve/out via dyn MechFunction"],
-          bounds="start, end%s: all values of %s with mathematical length %s" % (", step" if stepped else "", t, "1..%d" % CAP if domain == "accept" else "0"),
-          unwind=CAP + 2, tier=tier, group=form, solver="kissat")
+          bounds=bounds, unwind=CAP + 2, tier=tier, group=form, solver="kissat")
     h.rec_limit = 1
     h.heavy = True
     return h
@@ -128,24 +135,35 @@ def gen_float(form, t, tier):
 
 
 def plan(tier, seed):
+    import os
     hs = []
     ints = ["u8", "i8", "i16", "u16", "i32", "u32", "i64", "u64"]
     for form in FILES:
+        stepped = FILES[form][4]
         qk = ints[seed % 2]          # u8 or i8 in quick, rotating
         for t in ints:
-            q = "quick" if t in (qk, "i64" if FILES[form][4] else qk) else "thorough"
-            hs.append(gen_int(form, t, "accept", q))
+            if stepped and t not in ("u8", "i8", "i16", "u16"):
+                continue             # see "outside": the f64-computed length of the stepped forms gets no verdict for wider kinds
+            hs.append(gen_int(form, t, "accept", "quick" if t == qk else "thorough"))
             hs.append(gen_int(form, t, "reject", "quick" if t == qk else "thorough"))
-        hs.append(gen_float(form, "f64", "quick"))
-        hs.append(gen_float(form, "f32", "thorough"))
+            if stepped and t.startswith("i"):
+                hs.append(gen_int(form, t, "accept_desc", "quick" if t == "i8" else "thorough"))
+        if os.environ.get("VERIF_C15_FLOATS"):
+            hs.append(gen_float(form, "f32", "quick"))
+            hs.append(gen_float(form, "f64", "thorough"))
     return {
         "harnesses": hs,
         "explanation": "Kani/CBMC over the private range dispatch functions impl_range_{exclusive,inclusive,increment_exclusive,increment_inclusive}_fxn "
                        "(size computation + allocation) and the fill kernels Range*Scalar::solve, with start, step and end symbolic",
-        "bounds": "mathematical length <= %d (so that the fill loops unwind); integers: all start/end/step values of the kind with that length; "
-                  "floats: finite values in [-1000,1000], step >= 0.25; kinds u8..u64, i8..i64, f32, f64" % CAP,
+        "bounds": "mathematical length <= %d (so that the fill loops unwind); all start/end/step values of the kind with that length; "
+                  "a..b and a..=b: u8..u64, i8..i64; stepped forms: u8, i8, u16, i16, ascending and (signed) descending" % CAP,
         "outside": ["ranges longer than %d elements (so the size computation is only exercised where the length is small: overflow of "
-                    "`to - from` for far-apart bounds is outside)" % CAP, "i128/u128 (no wider oracle type)", "negative float steps",
+                    "`to - from` for far-apart bounds is outside)" % CAP, "i128/u128 (no wider oracle type)",
+                    "f32/f64 ranges, and stepped ranges of the 32- and 64-bit kinds: the element count goes through a float -> usize "
+                    "conversion that then sizes an allocation and bounds the fill loop; CBMC runs out of 30 GB in the propositional "
+                    "reduction (toy reproduction: `vec![1.5f32; d as usize]` plus a fill loop, no verdict in 120 s).  The harness "
+                    "generator is kept (VERIF_C15_FLOATS=1).  Natively observed and therefore NOT decided by this check: "
+                    "`1.5..4.0` evaluates to [1.5 2.5] (length = trunc(b - a))",
                     "the NativeFunctionCompiler wrappers (MutableReference unwrapping)", "range syntax -> dispatch call in expressions.rs"],
         "caps": {"quick_timeout": 900, "thorough_timeout": 2400},
     }
